@@ -15,7 +15,6 @@ import (
 	"fmt"
 	"net"
 	"strings"
-	"sync"
 	"text/template"
 
 	"k8s.io/client-go/dynamic"
@@ -26,66 +25,6 @@ import (
 
 //verif:stub (*text/template.Template).Funcs -> h05Funcs
 //verif:stub net.LookupHost -> h05LookupHost
-//verif:stub (*sync.Map).Load -> h05SMLoad
-//verif:stub (*sync.Map).Store -> h05SMStore
-//verif:stub (*sync.Map).LoadOrStore -> h05SMLoadOrStore
-//verif:stub (*sync.Map).Delete -> h05SMDelete
-
-// sync.Map model (class S): go1.24's sync.Map is a hash trie over abi type words that
-// the executor cannot interpret; a memo table that chart code keeps in one is modelled
-// as an association list per map with the same Load/Store/LoadOrStore/Delete contract.
-type h05SM struct{ keys, vals []any }
-
-var h05SyncMaps = map[*sync.Map]*h05SM{}
-
-func h05SMOf(m *sync.Map) *h05SM {
-	sm := h05SyncMaps[m]
-	if sm == nil {
-		sm = &h05SM{}
-		h05SyncMaps[m] = sm
-	}
-	return sm
-}
-
-func h05SMLoad(m *sync.Map, key any) (any, bool) {
-	sm := h05SMOf(m)
-	for i, k := range sm.keys {
-		if k == key {
-			return sm.vals[i], true
-		}
-	}
-	return nil, false
-}
-
-func h05SMStore(m *sync.Map, key, value any) {
-	sm := h05SMOf(m)
-	for i, k := range sm.keys {
-		if k == key {
-			sm.vals[i] = value
-			return
-		}
-	}
-	sm.keys, sm.vals = append(sm.keys, key), append(sm.vals, value)
-}
-
-func h05SMLoadOrStore(m *sync.Map, key, value any) (any, bool) {
-	if v, ok := h05SMLoad(m, key); ok {
-		return v, true
-	}
-	h05SMStore(m, key, value)
-	return value, false
-}
-
-func h05SMDelete(m *sync.Map, key any) {
-	sm := h05SMOf(m)
-	for i, k := range sm.keys {
-		if k == key {
-			sm.keys = append(sm.keys[:i], sm.keys[i+1:]...)
-			sm.vals = append(sm.vals[:i], sm.vals[i+1:]...)
-			return
-		}
-	}
-}
 
 // a resolver that answers: any call is a DNS lookup made on behalf of chart content
 var h05Lookups int
@@ -196,7 +135,8 @@ func H05Files() {
 // render) asked before with the same pattern. Two file sets share one name with
 // different content; the same symbolic pattern is globbed on the first, then on
 // the second, then on the first again. Runs the real files.Glob (gobwas/glob
-// compile + match), AsConfig and AsSecrets.
+// compile + match) and AsConfig. A memo table kept in a sync.Map is interpreted
+// through the engine's sync.Map model (association list, class S).
 func H05Glob() {
 	one := newFiles([]*chart.File{{Name: "a", Data: []byte("1")}, {Name: "d/b", Data: []byte("2")}})
 	two := newFiles([]*chart.File{{Name: "a", Data: []byte("X")}, {Name: "c", Data: []byte("3")}})
